@@ -487,6 +487,28 @@ CHECKS["C20"] = {
                     "the /health handler closure of main is located by its route pattern and executed with its captured variables bound by the engine (two logs, one of them staging); its loop over witness checks is exercised only with no witness configured"],
 }
 
+# ---------------------------------------------------------------- C15
+# VerifC15Mirror(size, requests, faults, restart)
+c15_cases = [
+    case("log of 3 entries, one request", "VerifC15Mirror", [3, 1, 0, 0], ["done", "mirror-cosigned", "packages-refused"], Q),
+    case("log of 2 entries, one request, one fault", "VerifC15Mirror", [2, 1, 1, 0], ["done", "mirror-cosigned", "commit-refused"], Q),
+    case("log of 2 entries, two requests with restart", "VerifC15Mirror", [2, 2, 0, 1], ["done", "mirror-cosigned", "restarted"], Q),
+    case("mid-tile commit behind next_entry (3 entries, cut at 2), one fault", "VerifC15Cut", [3, 2, 1], ["done", "cut-cosigned", "commit-failed", "resumed"], Q),
+    case("mid-tile commit behind next_entry (5 entries, cut at 3), no fault", "VerifC15Cut", [5, 3, 0], ["done", "cut-cosigned", "resumed"], Q),
+    case("log of 3 entries, two requests with restart", "VerifC15Mirror", [3, 2, 0, 1], ["done", "mirror-cosigned", "restarted"], T),
+    case("log of 3 entries, two requests, one fault", "VerifC15Mirror", [3, 2, 1, 0], ["done", "mirror-cosigned"], T),
+    case("mid-tile commit (4 entries, cut at 3), two faults", "VerifC15Cut", [4, 3, 2], ["done", "cut-cosigned", "resumed"], T),
+    case("log of 258 entries, one request", "VerifC15Mirror", [258, 1, 0, 0], ["done", "mirror-cosigned"], T),
+]
+CHECKS["C15"] = {
+    "level": "model_checking",
+    "jobs": [dict(WITNESS, harness=WW + ["internal_witness/zz_verif_c14.go", "internal_witness/zz_verif_c15.go"], native=False, cases=c15_cases)],
+    "bounds": {"quick": "logs of 2-3 entries; pending checkpoint at a symbolic size (optionally growing to the full size between requests); 1-2 add-entries requests with every (start, end), wrong first entry, corrupted proof, body truncated at any byte, genuine or forged ticket; one lock/storage fault; restart between requests",
+               "thorough": "4 entries with fault and restart; 258 entries (tile boundary) with one request"},
+    "assumptions": [IDEAL_HASH, "ideal signatures; ticket AEAD = ideal (opens only what was sealed with the same associated data)", "gzip contract; HTTP framing of add-entries (headers, content-encoding) is not executed: the three processing phases are called as serveAddEntries calls them",
+                    "torchwood.CheckSubtree / SubtreeHash / HashReaderOverlay and tlog tile code are executed from their real source", "requests are processed one at a time (the per-log mutex sections of the three phases are not interleaved with other requests)"],
+}
+
 # ---------------------------------------------------------------- manifest texts
 NOT_APPLICABLE = {}
 _WORLD_NOTE = ("environment = the ctlog world of DESIGN.md §3.1: in-memory object storage and a correct CAS lock store with per-operation crash/fault injection, "
@@ -535,6 +557,10 @@ MANIFEST_TEXT = {
     "C14": {
         "text": "bounded symbolic execution of processAddCheckpointRequest and updateCheckpoint (with the real note.Open/Sign, tlog.CheckTree and torchwood cosigners) over a forked log: sequences of requests with symbolic old size, new size, branch, proof and signature kind, lock/storage faults (applied or not) and witness restarts; all cosigned or published checkpoints lie on one branch with non-decreasing sizes, a checkpoint is recorded before its cosignature is released or published, and refusals carry the protocol's answers",
         "note": "logs of 3 (quick) / 5 (thorough) leaves; ideal hashing and signatures; witness configuration JSON modelled; concurrent requests = request orderings (updateCheckpoint is one critical section)",
+    },
+    "C15": {
+        "text": "bounded symbolic execution of processAddEntriesMetadata, mirrorConflict/verifyTicket, processAddEntriesPackages/Package, completeTileFromBackend, processAddEntriesCommit and ensureCutTiles with the real torchwood subtree proofs and overlay: add-entries requests with every (start, end), wrong entries, corrupted proofs, truncation at any byte, genuine and forged tickets, faults and restarts; at the instant a mirror checkpoint takes effect in the lock store an independent oracle checks that storage already serves every entry bundle and hash tile of the size-N tree with exactly the log's entries, that N does not exceed the pending checkpoint and never decreases, and signatures are returned only after that record",
+        "note": "small logs (2-4 entries quick, 258 thorough); the HTTP layer and concurrent interleaving of the three phases with other requests are outside the claim; ideal hashing, signatures and AEAD",
     },
     "C16": {
         "text": "bounded symbolic execution of processSignSubtreeRequest and splitSignatures with the real torchwood ValidSubtree/CheckSubtree/cosignature code and note.Open over a small forked log: every (start, end, checkpoint size), nine signer combinations on the presented checkpoint (including foreign and forged lines), right/wrong/other-branch subtree hash and right/corrupted proof; an answer implies an independently recomputed valid range within the checkpoint, the right subtree hash, and exactly one valid subtree cosignature per own ML-DSA key whose cosignature is on the checkpoint",
